@@ -124,6 +124,17 @@ def check_cfg(ctx, facts, cfg):
             pass
         n_scope += 1
         ctx.ok('C07.scope', '%s@%s' % (key, cfg), None, nontrivial=False)
+        # private helpers of the same file that are not themselves in scope (they take the codec by value, or no codec at
+        # all) are analysed in place: `self.0 = take(&mut self.0).reconfigure(..)?` is the match it was extracted from
+        fi = core.inlined_fn(facts, fn.path, lambda g, t, f0=fn: (not g.reachable and not g.impl_trait and not g.in_trait and g.kind != 'Closure'
+                                                                    and g.file == f0.file and not in_scope(g) and g.output
+                                                                    and g.output.startswith('std::result::Result<')), tag='c07')
+        if fi is not fn:
+            inst2 = summ.Inst(S, key)
+            inst2.fn = fi
+            S._inst[fi.path] = inst2
+            check_instance(ctx, facts, S, fi.path, fi, inst2, scope, cfg, report_key=key)
+            continue
         check_instance(ctx, facts, S, key, fn, inst, scope, cfg)
     defs = {f.path for f in scope.values()}
     ctx.floor('C07.scope', 37, len(defs), 'in-scope function definitions (cfg %s)' % cfg, cfg=cfg)
@@ -142,8 +153,9 @@ def check_cfg(ctx, facts, cfg):
         ctx.note('external callees taking a derived &mut that are in neither table (treated as writers): %s' % sorted(S.unknown_ext))
 
 
-def check_instance(ctx, facts, S, key, fn, inst, scope, cfg):
+def check_instance(ctx, facts, S, key, fn, inst, scope, cfg, report_key=None):
     body = fn.body
+    rk = report_key or key
     sites = S.mutation_sites(key)
     errs, oks = core.result_exits(body)
     tsites = core.try_sites(body)
@@ -165,13 +177,55 @@ def check_instance(ctx, facts, S, key, fn, inst, scope, cfg):
                 hops += 1
     # Err exits: (bb, pos, kind, info)
     xs = []
+
+    def producers(ts, depth=0):
+        """`?` applied to a Result held in a local that several places write (an inlined helper's exits): the failures that
+        can arrive here are the failures of those places"""
+        out = []
+        if ts is None or ts['call_bb'] is not None or depth > 3:
+            return None
+        arg = op_place(body.term(ts['branch_bb'])['args'][0])
+        if arg is None or arg['p']:
+            return None
+        for d in body.defs().get(arg['l'], []):
+            if d[0] == 'stmt':
+                st = body.blocks[d[1]]['stmts'][d[2]]
+                rv = st['rv']
+                if rv['k'] == 'agg' and rv.get('adt') == 'std::result::Result':
+                    if rv.get('variant') == 'Err':
+                        out.append({'bb': d[1], 'pos': d[2], 'kind': 'ctor', 'ts': None})
+                    continue
+                return None
+            elif d[0] == 'call':
+                t = body.term(d[1])
+                if t['callee'].get('decl') == 'std::ops::FromResidual::from_residual':
+                    inner = res_of.get(d[1])
+                    sub = producers(inner, depth + 1)
+                    if sub is None:
+                        out.append({'bb': d[1], 'pos': 'term', 'kind': 'residual', 'ts': inner})
+                    else:
+                        out.extend(sub)
+                else:
+                    out.append({'bb': d[1], 'pos': 'term', 'kind': 'residual', 'ts': {'call_bb': d[1], 'branch_bb': ts['branch_bb'], 'switch_bb': ts['switch_bb'],
+                                                                                  'ok_bb': ts['ok_bb'], 'err_bb': ts['err_bb'], 'callee': t['callee'], 'line': t['line']}})
+            else:
+                return None
+        return out
     for (b, kind, detail) in errs:
         pos = detail if kind == 'ctor' else 'term'
-        xs.append({'bb': b, 'pos': pos, 'kind': kind, 'ts': res_of.get(b)})
+        ts0 = res_of.get(b)
+        sub = producers(ts0) if kind == 'residual' else None
+        if sub:
+            # the assignment of an inner failure to a local that is then re-tried is not itself an exit of the function
+            for y in sub:
+                y['outer_bb'] = b
+            xs.extend(sub)
+            continue
+        xs.append({'bb': b, 'pos': pos, 'kind': kind, 'ts': ts0})
     for (b, kind, detail) in oks:
         if kind == 'tailcall' and body.local_ty(0).startswith('std::result::Result<'):
             xs.append({'bb': b, 'pos': 'term', 'kind': 'tail', 'ts': None})
-    short_key = key
+    short_key = rk
     if not sites:
         ctx.ok('C07.atomic', '%s@%s' % (short_key, cfg), None, nontrivial=False)
         return
@@ -183,15 +237,16 @@ def check_instance(ctx, facts, S, key, fn, inst, scope, cfg):
     for x in xs:
         if x['kind'] == 'tail':
             continue
-        tail = body.reachable_flagged(x['bb'])
+        tail = body.reachable_flagged(x.get('outer_bb', x['bb']))
         for m in sites:
-            if m['bb'] in tail and m['bb'] != x['bb'] and m['bb'] not in from_ok:
+            if m['bb'] in tail and m['bb'] != x.get('outer_bb', x['bb']) and m['bb'] not in from_ok:
                 ctx.violation('C07.atomic', '%s-after->%s' % (m['what'].split(' (')[0], xdesc(body, inst, x)),
                               'state is modified (%s at %s) on the error path AFTER the failure %s was produced and before it is returned'
-                              % (m['what'], m['line'], xdesc(body, inst, x)), site=m['line'], fn=key, cfg=cfg,
+                              % (m['what'], m['line'], xdesc(body, inst, x)), site=m['line'], fn=rk, cfg=cfg,
                               detail={'mutation': m['what'], 'err_exit': xdesc(body, inst, x)})
+    pruned = body.const_pruned_edges()      # M1: `if flag` on a constant flag (a helper inlined with a literal argument)
     for m in sites:
-        after = body.reachable_from(m['bb'])
+        after = body.reachable_from(m['bb'], removed_edges=pruned)
         for x in xs:
             # is x reachable from m?
             if x['bb'] == m['bb']:
@@ -243,7 +298,7 @@ def check_instance(ctx, facts, S, key, fn, inst, scope, cfg):
             ctx.violation('C07.atomic', '%s->%s' % (m['what'].split(' (')[0], xdesc(body, inst, x)),
                           'state is modified (%s at %s) on a path that can still return Err (%s at %s)%s'
                           % (m['what'], m['line'], xdesc(body, inst, x), exit_line(body, x), '; D1 not applicable: ' + why if why else ''),
-                          site=m['line'], fn=key, cfg=cfg,
+                          site=m['line'], fn=rk, cfg=cfg,
                           detail={'mutation': m['what'], 'mutation_at': m['line'], 'err_exit': xdesc(body, inst, x),
                                   'err_exit_at': exit_line(body, x)})
 
